@@ -63,6 +63,33 @@ def checkLeaseMgr (inp obs : KV) : Option String × List (String × String) :=
         (if obs.get "ifnonematch" != "1" then [("C18", "upload-may-overwrite-existing-blob")] else []) ++
         (if obs.nat "uploads" != n then [("C18", "v2-remaining-blobs-not-attempted")] else [])
       (diffFields exp got, viol)
+  else if site == "create2" then
+    let codes := (inp.get "codes").splitOn ","
+    let results := codes.map sdkErrOf
+    let benign := fun (c : String) => ["none", "BlobAlreadyExists", "LeaseIdMissing"].contains c
+    let obsEv := if obs.get "ev" == "-" then [] else (obs.get "ev").splitOn "+"
+    -- monitors on the observation alone: a blob whose upload FAILED is never reported created / verified
+    let badIdx := (codes.zipIdx.filter fun (c, _) => !benign c).map (·.2)
+    let claimed := badIdx.filter fun i => obsEv.contains s!"created-blob:{i}" || obsEv.contains s!"verified-blob:{i}"
+    let viol0 := if claimed.isEmpty then [] else [("C18", s!"failed-blob-reported-as-present:index={claimed.headD 0}:codes={inp.get "codes"}")]
+    if gen == 1 then
+      let (err, ev, ups) := createV1 results
+      let exp := [("err", if err then "1" else "0"), ("ev", evsStr ev), ("uploads", toString ups)]
+      let got := [("err", obs.get "err"), ("ev", obs.get "ev"), ("uploads", obs.get "uploads")]
+      let viol := viol0 ++
+        (if !badIdx.isEmpty && obs.get "err" == "0" then [("C18", "v1-blob-error-not-returned:" ++ inp.get "codes")] else []) ++
+        (if badIdx.isEmpty && obs.get "err" == "1" then [("C18", "v1-benign-blob-outcome-returned-as-error")] else [])
+      (diffFields exp got, viol)
+    else
+      let (ev, ups) := createV2 results
+      let exp := [("err", "0"), ("ev", evsStr ev), ("uploads", toString ups)]
+      let got := [("err", obs.get "err"), ("ev", obs.get "ev"), ("uploads", obs.get "uploads")]
+      let nErr := obsEv.count "error"
+      let viol := viol0 ++
+        (if nErr < badIdx.length then [("C18", "v2-blob-error-not-surfaced:" ++ inp.get "codes")] else []) ++
+        (if nErr > badIdx.length then [("C18", "v2-benign-blob-outcome-raises-error")] else []) ++
+        (if obs.nat "uploads" != codes.length then [("C18", "v2-remaining-blobs-not-attempted")] else [])
+      (diffFields exp got, viol)
   else if site == "loopback" then
     -- blobs are named after the partition index, never overwritten, leased for 15 s under the caller's id
     let exp := [("perr", "0"), ("cerr", "0"), ("secs0", "15"), ("secs1", "0"), ("secs2", "0"),
